@@ -742,6 +742,63 @@ func passAuth(c *Ctx) error {
 	}
 	sb.WriteString(strings.Join(lines, ",\n"))
 	sb.WriteString("\n]\n\n")
+	// x/admin AddAccount / RemoveAccount: is the account's address required to be the canonical spelling of a
+	// valid address before the table is touched?  Recognised shape: a top-level
+	//   if err := F(msg.Account); err != nil { return nil, err }
+	// before the keeper call, F decoding <p>.AdminAddress with AccAddressFromBech32 and returning an error
+	// when <decoded>.String() != <p>.AdminAddress.
+	sb.WriteString("/-- x/admin: does the handler reject an AdminAddress that is not the canonical spelling of a valid address -/\ndef adminValidatesCanonical : List (String × Bool) := [")
+	for i, hn := range []string{"AddAccount", "RemoveAccount"} {
+		ok := false
+		if m := p.mod("admin"); m != nil {
+			for _, fd := range m.funcs[hn] {
+				if recvType(fd) != "msgServer" || len(fd.Type.Params.List) < 2 || len(fd.Type.Params.List[1].Names) != 1 {
+					continue
+				}
+				msgName := fd.Type.Params.List[1].Names[0].Name
+				validated := false
+				for _, st := range fd.Body.List {
+					src := c.Src(st)
+					if strings.Contains(src, "SetAdminAccount(") || strings.Contains(src, "RemoveAdminAccount(") {
+						ok = validated
+						break
+					}
+					is, isIf := st.(*ast.IfStmt)
+					if !isIf || is.Init == nil || c.Src(is.Cond) != "err != nil" || !returnsErrVar(c, is.Body.List) {
+						continue
+					}
+					as, isAs := is.Init.(*ast.AssignStmt)
+					if !isAs || len(as.Rhs) != 1 {
+						continue
+					}
+					call, isCall := as.Rhs[0].(*ast.CallExpr)
+					if !isCall || len(call.Args) != 1 || c.Src(call.Args[0]) != msgName+".Account" {
+						continue
+					}
+					id, isID := call.Fun.(*ast.Ident)
+					if !isID {
+						continue
+					}
+					for _, f := range m.funcs[id.Name] {
+						if f.Recv != nil || len(f.Type.Params.List) != 1 || len(f.Type.Params.List[0].Names) != 1 {
+							continue
+						}
+						pn := f.Type.Params.List[0].Names[0].Name
+						body := c.Src(f.Body)
+						if strings.Contains(body, "AccAddressFromBech32("+pn+".AdminAddress)") && strings.Contains(body, ".String() != "+pn+".AdminAddress") &&
+							strings.Contains(body, "if err != nil { return err }") {
+							validated = true
+						}
+					}
+				}
+			}
+		}
+		if i > 0 {
+			sb.WriteString(", ")
+		}
+		sb.WriteString(fmt.Sprintf("(%s, %v)", LeanStr(hn), ok))
+	}
+	sb.WriteString("]\n\n")
 	sb.WriteString(fmt.Sprintf("def methodCount : Nat := %d\n\nend Sif.Generated.Auth\n", total))
 	return c.WriteLean("Auth", sb.String())
 }
